@@ -190,7 +190,7 @@ class CallEngine(Engine):
     return ginm.gen_plain(rng, 1)
 
   def gen(self, rng, tier):
-    regs = ginm.gen_regs(rng, lists=0.15, allow_req=self.allow_req, shapes=True)
+    regs = ginm.gen_regs(rng, lists=0.15, allow_req=self.allow_req, shapes=True, methods=0.3)
     ops = []
     active = ginm.gen_scope(rng, 3)
     for _ in range(rng.randint(0, 12)):
